@@ -257,7 +257,8 @@ def build_registry():
                'Tilt(acc,mag)', 'SAAM(acc,mag)', 'FQA(acc,mag)', 'QUEST(acc,mag)', 'FLAE(acc,mag)', 'Davenport(acc,mag)', 'FAMC(acc,mag)', 'TRIAD(w1,w2)',
                'OLEQ(acc,mag)', 'AQUA(acc,mag)', 'EKF.Omega', 'EKF.f', 'EKF.dfdq', 'EKF.h', 'EKF.dhdq', 'UKF.compute_sigma_points', 'AQUA.Omega',
                'ROLEQ.attitude_propagation', 'ROLEQ.oleq', 'FKF.Omega4', 'FKF.measurement_quaternion_acc_mag', 'aqua.slerp_I', 'aqua.adaptive_gain',
-               'Sensors(quaternions)', 'wmm.geodetic2spherical'):
+               'Sensors(quaternions)', 'wmm.geodetic2spherical',
+               'Madgwick.updateIMU', 'Madgwick.updateMARG', 'AQUA.updateIMU', 'AQUA.updateMARG', 'Fourati.update', 'AngularRate.update'):
         reg.append(Entry(f'filters.{fn}', 'filter', fn, 'filters', fn, []))
     return reg
 
@@ -420,6 +421,35 @@ def prepare_filter(entry, ctx):
             except Exception:       # noqa: BLE001
                 pass
         return fn + (f"[{kwc['method']}]" if kwc else ''), (lambda: meth(a1, m1, **call_kw)), [a1, m1], ('disturb', disturb)
+    if fn in ('Madgwick.updateIMU', 'Madgwick.updateMARG', 'AQUA.updateIMU', 'AQUA.updateMARG', 'Fourati.update', 'AngularRate.update'):
+        # update methods of the classes that carry no estimator state besides the quaternion they are handed: the same
+        # call gives the same answer, whatever the object was asked in between (other samples, another period for
+        # that one call, another integration method)
+        cls, mname = fn.split('.')
+        inst = getattr(F, cls)()
+        meth = getattr(inst, mname)
+        g2 = ctx.vec('gyr', shared_ok=False) * 1.7
+        a2 = ctx.vec('acc', shared_ok=False)
+        m2 = np.cross(a1, m1) + 0.1 * m1
+        if cls == 'AngularRate':
+            variant = r.choice(['default', 'series'])
+            kw1 = {} if variant == 'default' else {'method': 'series', 'order': r.choice([1, 2, 4])}
+            args1, args2 = (q, g1), (q, g2)
+            kw2 = [{'method': 'series', 'order': 3, 'dt': 0.25}, {'method': 'closed', 'dt': 0.002}, {'dt': 0.25}][r.randrange(3)]
+            label = f'{fn}[{variant}]'
+        else:
+            marg = mname in ('updateMARG', 'update')
+            args1 = (q, g1, a1, m1) if marg else (q, g1, a1)
+            args2 = (q, g2, a2, m2) if marg else (q, g2, a2)
+            kw1, kw2 = {}, {'dt': r.choice([0.25, 0.002])}
+            label = fn
+
+        def disturb():
+            try:
+                meth(*args2, **kw2)
+            except Exception:       # noqa: BLE001
+                pass
+        return label, (lambda: meth(*args1, **kw1)), list(args1), ('disturb', disturb)
     if fn == 'Complementary.am_estimation':
         inst = F.Complementary()
         if r.random() < 0.5:
